@@ -2,6 +2,7 @@ package main
 
 import (
 	"flag"
+	"go/types"
 	"fmt"
 	"os"
 	"regexp"
@@ -52,6 +53,13 @@ func loadGen(dir string) (*Gen, error) {
 		}
 	}
 	sort.Slice(g.allFuncs, func(i, j int) bool { return g.fnKey(g.allFuncs[i]) < g.fnKey(g.allFuncs[j]) })
+	g.infoOf = map[*types.Package]*types.Info{}
+	packages.Visit(pkgs, nil, func(p *packages.Package) {
+		if p.Types != nil && p.TypesInfo != nil {
+			g.infoOf[p.Types] = p.TypesInfo
+		}
+	})
+	g.computeAliases()
 	if os.Getenv("GOVC_TIMING") != "" {
 		defer func(t0 time.Time) { fmt.Fprintf(os.Stderr, "post-load phases: %v\n", time.Since(t0)) }(time.Now())
 	}
@@ -195,6 +203,8 @@ func main() {
 		cmdCheck(os.Args[2:])
 	case "sites":
 		cmdSites(os.Args[2:])
+	case "snapshot-names":
+		cmdSnapshotNames(os.Args[2:])
 	default:
 		fmt.Println("unknown command")
 		os.Exit(2)
